@@ -36,8 +36,15 @@ AVOID6 = {'C01': 'StepAddress, Exp, max_gt or the modr family', 'C03': 'AddSub, 
           'C20': 'the arp slots, AccEProxy, the st2 slots or load_stepj', 'C02': 'Interpreter::Run, GetDecoderTable, MatcherCreator or parser.cpp',
           'C14': 'Apbp::SetSemaphore, ClearSemaphore, MaskSemaphore or DataChannel::Send', 'C15': 'Timer::Skip, GetMaxSkip, TickEvent or the pause test in Timer::Tick',
           'C19': 'DataChannel::Recv, DataChannel::Send, Apbp::SetSemaphore, ICU::Trigger or Interpreter::Run'}
+AVOID7 = {'C04': 'ShiftBus40, DoMultiplication, Exp or ProductToBus40', 'C06': 'Timer::Skip, CoreTiming::Skip, Btdmp::Skip, the idle flag handling at interrupt entry or in brr, or the zero-length-skip tick in Interpreter::Run',
+          'C08': 'banke, ContextStore, pop(Abe), push(Register), the shadowed flag list or the ar/arp pseudo-register layouts in register.h',
+          'C12': 'MemoryInterfaceUnit::ToMMIO/InMMIO, Cell::BitFieldCell, Dma::ActivateChannel, MemoryInterface::MMIORead/MMIOWrite or the DMA 0x1DA cell in mmio.cpp',
+          'C18': 'RestoreBlockRepeat, ConvertDataAddress, Ahbm::Channel::GetBurstSize, Ahbm::GetChannelForDma, the arp pseudo-register slots or ShiftBus40',
+          'C20': 'the arp slots, AccEProxy, the st2 slots, load_stepj or mov_icr', 'C13': 'Dma::Channel::Start, anything in Dma::Channel::Tick, or Ahbm::Write16',
+          'C17': 'Timer::Reset, Ahbm::Reset, Btdmp::Reset, Dma::Reset, Teakra::Impl::Reset or the SharedMemory constructor', 'C09': 'RestoreBlockRepeat, StoreBlockRepeat, the block-end test in Interpreter::Run, rep(Register), RegisterState::Lc or bkrep(Imm8, Address16)',
+          'C03': 'AddSub, SatAndSetAccAndFlag, SaturateAcc, alm(Register) or SetAccFlag', 'C10': 'StepAddress, RnAndModify or the mma addressing', 'C16': 'anything in btdmp.cpp, Send, SetTransmitFlush or SetTransmitEnable'}
 rnd = sys.argv[1]
-AVOID = AVOID6 if rnd == '6' else AVOID5 if rnd == '5' else AVOID4 if rnd == '4' else (AVOID3 if rnd == '3' else AVOID2)
+AVOID = AVOID7 if rnd == '7' else AVOID6 if rnd == '6' else AVOID5 if rnd == '5' else AVOID4 if rnd == '4' else (AVOID3 if rnd == '3' else AVOID2)
 ids = sys.argv[2:]
 os.makedirs('/tmp/scratch', exist_ok=True)
 for l in open('/verif/properties.jsonl'):
